@@ -119,12 +119,12 @@ def case_mixed(kind, fam, n, disconnect=None):
                     blocks = [A(), B(), B(), S(), S(), S()]
                 fem.IntegralForm(blocks, v=field, dV=reg.dV, u=field).assemble(parallel=parallel)
                 # absent blocks are zero
+                nb = list(blocks)
+                nb[1] = None
+                if n == 3:
+                    nb[3] = None
+                fem.IntegralForm(nb, v=field, dV=reg.dV, u=field).assemble(parallel=parallel)
                 if kind != "axisymmetric":
-                    nb = list(blocks)
-                    nb[1] = None
-                    if n == 3:
-                        nb[3] = None
-                    fem.IntegralForm(nb, v=field, dV=reg.dV, u=field).assemble(parallel=parallel)
                     # mode 3: full (Cartesian / plane strain)
                     if n == 2:
                         full = [A(), B(), B(), S()]
